@@ -10,7 +10,7 @@ import (
 	"verifharness/internal/vkit"
 )
 
-func main() { vkit.Main("C06", []string{"Gen.C06Util", "Model.Shapes", "Model.Index"}, run) }
+func main() { vkit.Main("C06", []string{"Gen.CellIDCov", "Model.Shapes", "Model.Index"}, run) }
 
 func run(c *vkit.Collector, rng *vkit.Rng, budget int) {
 	// vkit's streams for seeds k and k+1 are the same sequence shifted by one draw; re-seed from a
